@@ -1,10 +1,36 @@
-BASE_NOTE = ('Trusted: Coq 8.16.1 kernel (vm_compute for finite sweeps; no native_compute), no axioms (Print Assumptions closed under the global context); '
-             'the hand-written Gallina model is tied to /repo only by the correspondence check of each run (Rust harness vs model extracted with ExtrOcamlBasic), '
-             'rustc/bytemuck/std behaviour, x86-64 little-endian. ')
+BASE_NOTE = ('Trusted: Coq 8.16.1 kernel (vm_compute for finite sweeps and examples; no native_compute), no axioms (every Print Assumptions is '
+             '"Closed under the global context"); the hand-written Gallina model (coq/*/Impl.v) is tied to /repo only by the correspondence check of each run '
+             '(Rust harness vs model extracted with ExtrOcamlBasic, plus a vm_compute re-evaluation of a sample inside Coq), '
+             'rustc/bytemuck/std behaviour, x86-64 little-endian, integer keys/values with a total order. ')
+
+TECH = 'Coq proof about an executable Gallina model (invariant + refinement to an abstract spec) + differential correspondence check model vs crate with oracle search'
+
 CLAIMED = {
- 'C15': dict(text='Theorems over all buffer contents and lengths, all 256 byte values (finite sweep lifted by forallb_forall) and an arbitrary is_some predicate, about the Gallina model of PodBool/PodOption/load/load_mut; model and crate compared on every run.',
-             note=BASE_NOTE + 'Modelled, not verified: that #[repr(C)] single-field wrappers have the size and bytes of the inner type (checked by the harness with size_of/bytes_of for inner types of 1, 4, 8 and 32 bytes).',
-             technique='Coq proof (total functions over byte lists, finite sweep by vm_compute) + differential correspondence check'),
+ 'C02': dict(
+   text='Theorem over all operation histories, all capacities with cap+1 < 2^32 (including 0) and an ARBITRARY hash function (every collision pattern): the concrete hash-set model (header words, record array, bucket chains, intrusive free list) refines a capacity-bounded sorted set, iteration yields exactly the members once, remove removes only that value; chain/free-list invariant proved inductive. Model tied to the crate on every run (weak-hash value types forcing collisions, exhaustive small scope, re-open modes).',
+   note=BASE_NOTE + 'Values are modelled as integers with decidable equality; the Hash impl of the value type is the Section variable hash64 (SipHash-1-3 of the real types is modelled in Base/Sip.v and compared byte-for-byte through the buffers).',
+   technique=TECH),
+ 'C03': dict(
+   text='Theorems for every prefix width, slot count, history (with the documented side condition that get_mut writes keep the key): binary search returns the element or the unique insertion point on every sorted prefix, every operation refines a bounded strictly-ascending list (bound = min(slots, largest count the prefix can record)), the slice view is exactly the members in strictly ascending order in every reachable state. Model tied to the crate on every run (4 widths, 4 value types incl. one whose order ignores part of the value, exhaustive small scope, single steps from every sorted array up to length 8/16).',
+   note=BASE_NOTE + 'The unsafe ptr::copy is modelled as an unchecked memmove over a flat cell memory containing the guard regions.',
+   technique=TECH),
+ 'C11': dict(
+   text='Theorems: the validator of the model is equivalent to the Unicode Table 3-7 grammar; encodings of scalar values are valid; validity is closed under concatenation and zero padding; a cut at a char boundary of an encoded string is an encoding of a prefix; from_bytes/new hand out a handle only for valid payloads and refuse exactly the invalid ones; copy_from_str of any string keeps the handle valid, for any sequence of copies and any prefix width; PodStr::as_str returns only valid text. Tie: validator compared with str::from_utf8 on structured and exhaustive short byte strings, every cut position.',
+   note=BASE_NOTE + 'Modelled, not verified: that core::str::from_utf8 accepts exactly Table 3-7 (checked by the byte-string stream of every run) and that safe &mut str methods preserve validity (std contract).',
+   technique=TECH),
+ 'C13': dict(
+   text='Theorems for a generic prefix width: new() records min(area, prefix max) little-endian and exposes the whole area when expressible (never the length modulo 2^(8p)); copy_from_str stores the longest prefix of characters that fits followed by zeros, keeps length/prefix bytes/trailing bytes; reload through from_bytes returns the same text and ignores bytes beyond the recorded length; size = prefix + length. Tie: buffer sizes around 255/256/257 and 65535/65536/65537, every cut position, copy sequences, both views, raw bytes compared.',
+   note=BASE_NOTE,
+   technique=TECH),
+ 'C14': dict(
+   text='Theorems for every capacity N (including 0): copy/From store min(len,N) bytes then zeros independent of earlier content; round trip of every fitting NUL-free valid string; as_str total over arbitrary bytes (text before the first NUL, or an error); Display renders exactly that text; load of the value bytes (with any trailing bytes) is the value. Tie: capacities 0..32, strings over 1-4 byte characters and NUL, arbitrary byte contents.',
+   note=BASE_NOTE + 'Display of text that is not valid UTF-8 is String::from_utf8_lossy (std) of the text before the first NUL: not modelled, checked by the harness against from_utf8_lossy of that prefix.',
+   technique=TECH),
+ 'C15': dict(
+   text='Theorems over all buffer contents and lengths, all 256 byte values (finite sweep lifted by forallb_forall) and an arbitrary is_some predicate, about the Gallina model of PodBool/PodOption/load/load_mut; model and crate compared on every run.',
+   note=BASE_NOTE + 'Modelled, not verified: that #[repr(C)] single-field wrappers have the size and bytes of the inner type (checked by the harness with size_of/bytes_of for inner types of 1, 4, 8 and 32 bytes).',
+   technique='Coq proof (total functions over byte lists, finite sweep by vm_compute) + differential correspondence check'),
 }
-NOT_APPLICABLE = {p: 'check under construction in this session (model and correspondence exist; theorems not yet registered)' for p in
-                  ['C01','C02','C03','C04','C05','C06','C07','C08','C09','C10','C11','C12','C13','C14']}
+
+PENDING = ['C01', 'C04', 'C05', 'C06', 'C07', 'C08', 'C09', 'C10', 'C12']
+NOT_APPLICABLE = {p: 'not yet claimed: the model, the correspondence check and the oracles for this property run (bin/check %s), but its Coq theorems for the AVL trees are still being proved in this session; it will be claimed when Properties/%s.v is complete' % (p, p) for p in PENDING}
